@@ -28,7 +28,7 @@ def _nl_outputs(nlkind):
             lo, hi, nfr = nl_meta(path, w.pool[s].tag["N"])
         except (ValueError, FileNotFoundError, IndexError):
             return []
-        return [(path, {"kind": "nl", "nlkind": nlkind, "snaps": b, "mincn": lo, "maxcn": hi, "frames": nfr})]
+        return [(path, {"kind": "nl", "nlkind": nlkind, "snaps": b, "mincn": lo, "maxcn": hi, "frames": nfr, "N": w.pool[s].tag["N"]})]
     return outputs
 
 
@@ -39,7 +39,8 @@ def _gen_producer(kind):
         if s is None:
             return None
         t = w.pool[s].tag
-        args = {"snapshots": ref(s), "ppp": ref(comp(w, s, ".ppp")), "fnfile": rng.choice(NL_PATHS)}
+        args = {"snapshots": ref(s), "ppp": ref(comp(w, s, ".ppp")),
+                "fnfile": rng.choice(NL_PATHS[:1] if w.swarm.get("huge") else NL_PATHS)}
         if kind == "nn":
             args["N"] = rng.randint(1, min(t["N"] - 1, 7))
         elif kind == "cut":
@@ -80,7 +81,7 @@ def _cal_neighbors_outputs(w, op):
     except (ValueError, FileNotFoundError, IndexError):
         return []
     wname = pre + (".edgelength.dat" if t["ndim"] == 2 else ".facearea.dat")
-    base = {"snaps": t["bundle"], "mincn": lo, "maxcn": hi, "frames": nfr}
+    base = {"snaps": t["bundle"], "mincn": lo, "maxcn": hi, "frames": nfr, "N": t["N"]}
     return [(pre + ".neighbor.dat", dict(base, kind="nl", nlkind="vor", weights=wname)),
             (wname, dict(base, kind="weights", of=pre + ".neighbor.dat"))]
 
